@@ -242,6 +242,59 @@ pub fn run(a: &Args, rep: &mut Report) {
     rep.enumerated(n);
     rep.exhaustive.push("all 65536 half patterns except signalling NaNs; all well-formed simple values".into());
     mon::tick();
+    // adjacency: an item directly behind an item whose *last* byte equals its own head byte (or
+    // its first argument byte): what a token is must not depend on the bytes in front of it
+    {
+        let args: [u64; 16] = [0, 1, 23, 24, 0x38, 0x7f, 0x80, 0xff, 0x100, 0x8000, 0xffff, 0x1_0000, 0x8000_0000, 0xffff_ffff, 1 << 63, u64::MAX];
+        let mut seconds: Vec<Item> = Vec::new();
+        for w in [0u8, 1, 2, 4, 8] {
+            for &v in &args {
+                let fits = match w {
+                    0 => v < 24,
+                    1 => v <= 0xff,
+                    2 => v <= 0xffff,
+                    4 => v <= 0xffff_ffff,
+                    _ => true,
+                };
+                if fits {
+                    seconds.push(Item::UInt { w, v });
+                    seconds.push(Item::NInt { w, v });
+                    if v < 6 {
+                        seconds.push(Item::Bytes { w, v: vec![0x38; v as usize] });
+                        seconds.push(Item::Text { w, v: vec![b'8'; v as usize] });
+                        seconds.push(Item::Tag { w, v: if w == 0 { v } else { 0x38 + v }, inner: Box::new(Item::NInt { w: 1, v: 0x80 }) });
+                    }
+                }
+            }
+        }
+        seconds.extend([Item::F16(0xb800), Item::F16(0x3c00), Item::F32(0xbf80_0000), Item::F32(0x3880_0000), Item::F64(0xbff0_0000_0000_0000), Item::simple(19), Item::simple(255), Item::null()]);
+        let mut k = 0u64;
+        for it2 in &seconds {
+            let e2 = it2.encode();
+            for b in [e2[0], *e2.get(1).unwrap_or(&e2[0])] {
+                let mut firsts: Vec<Item> = vec![Item::Bytes { w: 0, v: vec![b] }, Item::Bytes { w: 1, v: vec![1, b] }];
+                if b < 0x80 {
+                    firsts.push(Item::Text { w: 0, v: vec![b] });
+                }
+                if b >= 24 {
+                    firsts.push(Item::UInt { w: 1, v: b as u64 });
+                    firsts.push(Item::NInt { w: 1, v: b as u64 });
+                    firsts.push(Item::UInt { w: 2, v: 0x100 + b as u64 });
+                } else {
+                    firsts.push(Item::UInt { w: 0, v: b as u64 });
+                }
+                for it1 in firsts {
+                    k += 1;
+                    if !a.mine(k) {
+                        continue;
+                    }
+                    check_sequence(rep, &[quiet(&it1), quiet(it2)]);
+                    check_sequence(rep, &[quiet(it2), quiet(&it1), quiet(it2)]);
+                    rep.count("adjacency: item behind an item ending in its head / argument byte");
+                }
+            }
+        }
+    }
     // random item sequences, preferred and non-preferred
     let nrand: u64 = if a.thorough() { 6_000_000 } else { 300_000 };
     for i in 0..nrand {
